@@ -166,10 +166,17 @@ def rates(E, cfg):
     if modes[0]:
         C.set_default_mode(modes[0])
     r1 = ExchangeRate(cur[0], m1, cur[1], t)
+    h1_early = E.hash_of(r1) if modes[1] else None      # hashed while the first mode is active
     if modes[1]:
         C.set_default_mode(modes[1])
     r2 = ExchangeRate(cur[2], m2, cur[3], s)
     _eq_implies_hash(E, r1, r2, 'equal-rates-hash-equal', 'rate-hash', [m1, m2])
+    if h1_early is not None:
+        # an equal rate hashed after the mode was changed (looked up in a set filled before the change)
+        E.check(E.Implies(r1 == r2, E.hash_equal(h1_early, E.hash_of(r2))), 'equal-rates-hash-equal-across-mode-change',
+                key='rate-hash:mode-change', info=[m1, m2, list(modes)])
+        E.check(E.hash_equal(h1_early, E.hash_of(r1)), 'rate-hash-stable-across-mode-change', key='rate-hash:unstable',
+                info=[m1, list(modes)])
     inv = r1.inverted().inverted() if False else r1
     _eq_implies_hash(E, r1, inv, 'rate-equals-itself-hash-equal', 'rate-hash:self')
     E.check(E.Not(r1 == 5), 'rate-unequal-to-number')
